@@ -478,6 +478,10 @@ def run_property(prop_id, spec, tier, seed=0, only_unit=None, keep=False, verbos
         for rec in unconfirmed:
             say('NOT-REPRODUCED (symbolic counterexample did not fail natively; logged, not reported): unit=%s label=%s inputs=%s native=%s' % (
                 rec['unit'], rec['label'], json.dumps(rec['inputs'])[:400], rec['replay'].get('why')))
+        replay_build_failures = [rec for rec in unconfirmed if 'native build failed' in str(rec['replay'].get('why'))]
+        if replay_build_failures:
+            # a counterexample that could not even be replayed because the native harness does not build is NOT a pass
+            val_problems.append('native replay build failed for unit %s: %s' % (replay_build_failures[0]['unit'], str(replay_build_failures[0]['replay'].get('why'))[:400]))
         if len(cand) + len(cand_issues) > 2 * max_replay:
             say('note: %d further counterexample candidates not replayed (cap %d)' % (len(cand) + len(cand_issues) - 2 * max_replay, max_replay))
 
